@@ -84,6 +84,15 @@ Proof.
   cbn [andb] in H. destruct (stays_inside (components p)); [discriminate|reflexivity].
 Qed.
 
+Lemma escaping_prefix_never_rescued_full fs p1 p2 :
+  base_path fs <> [] ->
+  slen p1 + base_path_len fs < PATH_MAX - 2 -> pathcat fs p1 = PcOk PNull ->
+  pathcat fs (p1 ++ SLASH :: p2) = PcOk PNull.
+Proof.
+  intros Hb Hlen H.
+  exact (escaping_prefix_never_rescued_lemma fs p1 p2 Hb (refused_short_escapes fs p1 Hb Hlen H)).
+Qed.
+
 (* the hypotheses of both theorems are met by ordinary inputs: "a/.." and "x/../y" are accepted and so is
    their join (which dips back to the base in the middle); "a/../.." is refused within the length limit,
    and stays refused when "/b/c" is appended *)
